@@ -321,6 +321,18 @@ class IMAPConnection:
             ok = await done_task
         except Exception as exc:
             done_exc = exc
+        except BaseException:
+            # cancelled while idling: the updates task must not outlive the
+            # connection, it would select the mailbox again after the
+            # disconnect has deselected it
+            done.set()
+            updates_task.cancel()
+            done_task.cancel()
+            try:
+                await updates_task
+            except (Exception, CancelledError):
+                pass
+            raise
         finally:
             done.set()
         try:
